@@ -95,7 +95,12 @@ def _date(  # noqa: PLR0912 PLR0911
         elif dat.isdigit():
             # The reference implementation does not support string
             # representations of negative integers either.
-            dat = datetime.datetime.fromtimestamp(int(dat))
+            try:
+                dat = datetime.datetime.fromtimestamp(int(dat))
+            except (OverflowError, OSError, ValueError):
+                # Out of range for a timestamp. Like a timestamp given as an
+                # integer, the input is returned unchanged.
+                return dat
         else:
             try:
                 dat = parser.parse(dat)
@@ -106,9 +111,9 @@ def _date(  # noqa: PLR0912 PLR0911
     elif isinstance(dat, int):
         try:
             dat = datetime.datetime.fromtimestamp(dat)
-        except (OverflowError, OSError):
+        except (OverflowError, OSError, ValueError):
             # Testing on Windows shows that it can't handle some
-            # negative integers.
+            # negative integers. ValueError: year is out of range.
             return str(dat)
 
     if not isinstance(dat, (datetime.datetime, datetime.date)):
